@@ -136,10 +136,15 @@ def fail(cls, case, expected, observed):
 
 
 def eq(a, b):
+    """a == b; the != operator must be its negation (otherwise a description of the disagreement is returned)."""
     try:
-        return a == b
+        r = a == b
+        n = a != b
     except Exception as e:  # noqa: BLE001
         return f"raised {type(e).__name__}"
+    if isinstance(r, bool) and n is not (not r):
+        return f"== answers {r} but != answers {n}"
+    return r
 
 
 def perturbations(c):
